@@ -263,7 +263,9 @@ def interp_case(draw):
     unsorted = draw(st.integers(0, 9)) == 0
     if not unsorted:
         pts = sorted(pts)
-    return {"iv": iv, "labels": labs, "points": pts,
+    # the fill value: a word no label uses, or (as with 'N' for "no chord") a word that some interval carries as its label, or None / a number
+    fill = draw(st.sampled_from(["<F>", "<F>", labs[draw(st.integers(0, len(labs) - 1))], None, 0]))
+    return {"iv": iv, "labels": labs, "points": pts, "fill": fill,
             "sample_size": draw(st.sampled_from([0.125, 0.25, 0.5, 0.75, 1.0, 1.5])), "offset": draw(st.sampled_from([0.0, 0.0, 0.125, 0.25]))}
 
 
@@ -277,29 +279,32 @@ def _expected_label(iv, labs, p, fill):
 
 def pred_interpolate(case, ctx):
     iv, labs, pts = case["iv"], case["labels"], case["points"]
+    FILL = case.get("fill", "<F>")
+    if FILL in labs:
+        ctx.event("fill_value_is_also_a_label")
     arr = np.array(iv, dtype=float)
     is_sorted = all(a <= b for a, b in zip(pts[:-1], pts[1:]))
     if not is_sorted:
         try:
-            util.interpolate_intervals(arr, list(labs), list(pts), fill_value="<F>")
+            util.interpolate_intervals(arr, list(labs), list(pts), fill_value=FILL)
         except ValueError:
             ctx.event("unsorted_rejected")
             return True
         except Exception as e:
             raise Violation("unsorted time points raise %s instead of ValueError" % type(e).__name__)
         raise Violation("unsorted time points accepted: %r" % (pts,))
-    got = ctx.call(util.interpolate_intervals, arr, list(labs), np.array(pts, dtype=float), fill_value="<F>")
-    exp = [_expected_label(iv, labs, p, "<F>") for p in pts]
+    got = ctx.call(util.interpolate_intervals, arr, list(labs), np.array(pts, dtype=float), fill_value=FILL)
+    exp = [_expected_label(iv, labs, p, FILL) for p in pts]
     if list(got) != exp:
         raise Violation("interpolate_intervals(%r, %r, %r) -> %r, expected %r" % (iv, labs, pts, got, exp))
     # samples
     fs, off = case["sample_size"], case["offset"]
-    ts, ls = ctx.call(util.intervals_to_samples, arr, list(labs), offset=off, sample_size=fs, fill_value="<F>")
+    ts, ls = ctx.call(util.intervals_to_samples, arr, list(labs), offset=off, sample_size=fs, fill_value=FILL)
     n = int(math.floor(F(max(r[1] for r in iv)) / F(fs)))
     ets = [k * fs + off for k in range(n)]
     if [float(t) for t in ts] != ets:
         raise Violation("sample times %r, expected k*%r+%r for k<%d" % (list(ts), fs, off, n))
-    exps = [_expected_label(iv, labs, p, "<F>") for p in ets]
+    exps = [_expected_label(iv, labs, p, FILL) for p in ets]
     if list(ls) != exps:
         raise Violation("intervals_to_samples labels %r, expected %r (intervals %r, size %r, offset %r)" % (ls, exps, iv, fs, off))
     shared = {a[1] for a, b in zip(iv[:-1], iv[1:]) if a[1] == b[0]}
